@@ -79,6 +79,14 @@ func (j *Journal) Add(c Call) {
 	j.Calls = append(j.Calls, c)
 }
 
+// SetFaults replaces the fault set without clearing the journal (used when the controller's own loop drives the scans).
+func (j *Journal) SetFaults(f []Fault) {
+	j.mu.Lock()
+	defer j.mu.Unlock()
+	j.faults = f
+	j.count = map[string]int{}
+}
+
 func (j *Journal) Snapshot() []Call {
 	j.mu.Lock()
 	defer j.mu.Unlock()
@@ -118,6 +126,7 @@ type SimAWS struct {
 	Loose   map[string]SimInst // instances acquired from a fleet and not (yet) attached
 	Killed  map[string]bool    // instances submitted to TerminateInstances
 	NeverReady bool
+	OnDescribe func()
 }
 
 type SimEC2 struct {
@@ -135,6 +144,9 @@ func AsgName(group string) string { return "asg-" + group }
 func (s *SimAWS) groupOfAsg(name string) string { return strings.TrimPrefix(name, "asg-") }
 
 func (s *SimAWS) DescribeAutoScalingGroups(in *autoscaling.DescribeAutoScalingGroupsInput) (*autoscaling.DescribeAutoScalingGroupsOutput, error) {
+	if s.OnDescribe != nil {
+		s.OnDescribe()
+	}
 	s.mu.Lock()
 	defer s.mu.Unlock()
 	fail := s.J.Hit("describe_asgs", "")
